@@ -2,7 +2,7 @@
 # extract the Coq model to OCaml and build the model_run driver
 set -e
 # the extraction reads compiled .vo files: bring the model up to date first (full .vo build)
-(cd /verif/coq && { [ -f Makefile ] || coq_makefile -f _CoqProject -o Makefile > /dev/null; } && make -j16 model/Search.vo model/Uci.vo model/Book.vo model/Table.vo model/Notation.vo spec/Abs.vo spec/FenSpec.vo spec/SanSpec.vo spec/GameValue.vo > /verif/.model-make.log 2>&1) || { tail -20 /verif/.model-make.log; exit 1; }
+(cd /verif/coq && { { [ -f Makefile ] && [ Makefile -nt _CoqProject ]; } || coq_makefile -f _CoqProject -o Makefile > /dev/null; } && make -j16 model/Search.vo model/Conc.vo model/Uci.vo model/Book.vo model/Table.vo model/Notation.vo spec/Abs.vo spec/FenSpec.vo spec/SanSpec.vo spec/GameValue.vo > /verif/.model-make.log 2>&1) || { tail -20 /verif/.model-make.log; exit 1; }
 mkdir -p /verif/ocaml/gen && cd /verif/ocaml/gen
 rm -f *.ml *.mli *.cm* *.o
 coqc -Q /verif/coq/gen WV -Q /verif/coq/model WV -Q /verif/coq/spec WV -Q /verif/coq/proofs WV -o /verif/ocaml/gen/Extract.vo /verif/coq/extract/Extract.v > /dev/null
